@@ -272,6 +272,43 @@ Theorem C05_fold_is_effect : forall start ls crc s,
 Proof. exact ra_fold_effect. Qed.
 Print Assumptions C05_fold_is_effect.
 
+(* ---------- reopening for append (Open + ReadAll in write mode, pkg/fileutil.ZeroToEnd) ---------- *)
+(* the recovered tail = the bytes up to lastValidOff, then zeros up to the old length: everything behind the
+   last valid record is zero *)
+Theorem C05_reopen_tail_zero : forall off img,
+  bdrop off (reopen_tail off img) = zeros (blen img - off) /\ all_zero (bdrop off (reopen_tail off img)) = true.
+Proof. exact reopen_tail_zero. Qed.
+Print Assumptions C05_reopen_tail_zero.
+
+(* ReadAll on a written segment returns the fold of its records, lastValidOff = end of the stream, and the
+   crc with which the append encoder continues = the writer's crc after those records *)
+Theorem C05_readall_on_stream : forall start recs z s',
+  Forall enc_ok recs -> (z = 0 \/ 8 <= z) -> ra_fold start ra_init (stored 0 recs) = inl s' ->
+  read_all start [fst (encode_all 0 recs) ++ zeros z] =
+  RAOk (ra_meta s') (ra_st s') (ra_ents s') (blen (fst (encode_all 0 recs))) (snd (encode_all 0 recs)).
+Proof. exact read_all_stream. Qed.
+Print Assumptions C05_readall_on_stream.
+
+(* TWO GENERATIONS: a recovery left a tail holding exactly the records recs1 (then zeros). The wal that
+   Open + ReadAll return has an all-zero tail behind recs1, and whatever well-formed operations are then run on
+   it (without leaving the segment), the tail is the encoder's stream of recs1 ++ more with [more] written in
+   this generation: the next reopen decodes exactly the recovered prefix followed by what was appended —
+   nothing the recovery had cut off can come back, nothing appended is lost *)
+Theorem C05_two_generation : forall opt seg f at_ recs1 z s1 cont,
+  sg_bytes f = fst (encode_all 0 recs1) ++ zeros z -> (z = 0 \/ 8 <= z) -> sg_idx f <= sn_index at_ ->
+  Forall enc_ok recs1 -> ra_fold at_ ra_init (stored 0 recs1) = inl s1 -> data_ok (ra_meta s1) ->
+  Forall op_wf cont ->
+  exists w, writer_after opt seg [f] at_ = Some w /\
+    all_zero (bdrop (blen (fst (encode_all 0 recs1))) (sg_bytes (tail_file w))) = true /\
+    let w' := fold_left w_step cont w in
+    (w_seq w' = w_seq w ->
+     exists more, Forall enc_ok (recs1 ++ more) /\
+       w_tail w' = fst (encode_all 0 (recs1 ++ more)) /\
+       forall z', (z' = 0 \/ 8 <= z') ->
+         decode_all [w_tail w' ++ zeros z'] = (stored 0 (recs1 ++ more), None, blen (w_tail w'))).
+Proof. exact two_generation. Qed.
+Print Assumptions C05_two_generation.
+
 (* ---------- END TO END, first segment ----------
    C05_full restricted to: histories that stay in their first segment (either fsync mode, any well-formed
    operations, the crash inside the last operation o) and images 'first c bytes, then zeros' for EVERY c
@@ -380,6 +417,19 @@ Proof.
   split; [vm_compute; discriminate|]. split; [vm_compute; discriminate|]. split.
   - apply no_cut_beyond_stream. vm_compute. discriminate.
   - vm_compute. auto.
+Qed.
+
+(* the hypotheses of the two-generation theorem are satisfiable: a recovered one-file directory *)
+Example C05_ex_two_generation :
+  let recs1 := [(c_crcType, None); (c_metadataType, Some [1;2;3]); (c_entryType, Some [8;0;16;1;24;1;40;0;48;0;56;0])] in
+  let f := {| sg_seq := 0; sg_idx := 0; sg_bytes := fst (encode_all 0 recs1) ++ zeros 16; sg_rec := 0 |} in
+  Forall enc_ok recs1 /\
+  (exists s1, ra_fold zero_snap ra_init (stored 0 recs1) = inl s1 /\ data_ok (ra_meta s1)) /\
+  exists w, writer_after false 512 [f] zero_snap = Some w /\ w_tail w = fst (encode_all 0 recs1) /\ w_enti w = 1.
+Proof.
+  cbv zeta. split; [repeat constructor; cbn; try lia; try discriminate; repeat constructor; lia|]. split.
+  - eexists. split; [vm_compute; reflexivity|]. split; [repeat constructor; lia|cbn; lia].
+  - eexists. split; [vm_compute; reflexivity|]. split; vm_compute; reflexivity.
 Qed.
 
 (* a concrete history satisfies the hypotheses of the prefix theorem's stream and decodes back *)
